@@ -44,8 +44,13 @@ A harness that has never failed has not been shown to work. Three kinds of evide
    commits makes the named check fail again (the `fixed` entries of known_findings.json suppress nothing).
 2. **Independently written seeded mutants** (below).
 3. **False-alarm resistance**: the checks discover module, prefix, envelope and helper names instead
-   of assuming them (section 3.5); the naming fixes of section 7.1 changed identifiers, module contents and
-   string formatting of the output many times while the unrelated checks stayed green throughout.
+   of assuming them (section 3.5). `/verif/neutral/*.diff` holds six meaning-preserving refactorings of
+   the generator (modules named `ns_<abbr>`; the private helper module and its functions renamed;
+   envelope structs named `<Op>Request`/`<Op>Reply`; modules, envelopes and methods emitted in reverse
+   order; different blank lines, comments and brace placement; `rename=` before `prefix=`).
+   `tools/check_neutral.sh` applies each to /repo and runs every quick check: 0 alarms. (Two of them
+   change text that the repository's own suite pins literally, which is exactly why the checks do not
+   compare text.)
 
 """ + block + "\n\n" + s[b:]
 open(p, 'w').write(s)
